@@ -75,7 +75,20 @@ class NegoEval:
     def interp(self, extra_globals=None) -> Interp:
         g = {"SCP_SCU_ROLES": self.table, "DEFAULT_ROLE": None}
         g.update(extra_globals or {})
-        return Interp(g, classes={"PresentationContext": lambda: self.new_cx(), "SCP_SCU_RoleSelectionNegotiation": lambda: self.new_role()})
+        it = Interp(g, classes={"PresentationContext": lambda: self.new_cx(), "SCP_SCU_RoleSelectionNegotiation": lambda: self.new_role()})
+        # helper functions of presentation.py the negotiation functions may call
+        for name, fn in self.mod.funcs.items():
+            if name in it.globals or not name.startswith("_"):
+                continue
+
+            def call(*args, _fn=fn, **kw):
+                params = [a.arg for a in _fn.args.args]
+                bound = dict(zip(params, args))
+                bound.update(kw)
+                return it.call_function(_fn, bound)
+
+            it.globals[name] = call
+        return it
 
     # -- the three functions -------------------------------------------------------------------------
     def acceptor(self, proposal, setting, ts_match: bool = True, supported: bool = True, fname: str = "negotiate_as_acceptor"):
@@ -171,6 +184,30 @@ class NegoEval:
         except Raised as r:
             return [("raised", r.kind, 0)]
         return [(c.get("context_id"), c.get("result"), id(c)) for c in cxs]
+
+    def requestor_pair(self, local_roles, reply):
+        """the same abstract syntax requested in two contexts: context 1 rejected by the acceptor (0x04), context 3
+        accepted. -> (outcome of context 1, outcome of context 3) as in requestor()"""
+        fn = self.repo.func("presentation", "negotiate_as_requestor")
+        rq1 = self.new_cx(context_id=1, abstract_syntax="AB", transfer_syntax=["T8"], scu_role=local_roles[0], scp_role=local_roles[1])
+        rq3 = self.new_cx(context_id=3, abstract_syntax="AB", transfer_syntax=["T1", "T2"], scu_role=local_roles[0], scp_role=local_roles[1])
+        ac1 = self.new_cx(context_id=1, abstract_syntax=None, transfer_syntax=["T8"], result=4)
+        ac3 = self.new_cx(context_id=3, abstract_syntax=None, transfer_syntax=["T1"], result=0)
+        roles = {"AB": reply} if reply is not None else {}
+        it = self.interp()
+        params = [a.arg for a in fn.args.args]
+        try:
+            res = it.call_function(fn, dict(zip(params, [[rq1, rq3], [ac1, ac3], roles])))
+        except Raised as r:
+            return dict(raised=r.kind), dict(raised=r.kind)
+        by_id = {c.get("context_id"): c for c in res}
+        if sorted(by_id) != [1, 3]:
+            return dict(count=len(res)), dict(count=len(res))
+        out = []
+        for k in (1, 3):
+            c = by_id[k]
+            out.append(dict(result=c.get("result"), as_scu=c.get("as_scu"), as_scp=c.get("as_scp"), ts=list(c.get("transfer_syntax")), ab=c.get("abstract_syntax")))
+        return out[0], out[1]
 
     def acceptor_pair(self, proposal, setting, fname: str = "negotiate_as_acceptor"):
         """the same abstract syntax proposed twice: context 1 with a transfer syntax the acceptor supports,
